@@ -117,7 +117,7 @@ func newEnv(online, kick bool, pool []poolEntry) *env {
 		fmt.Fprintln(os.Stderr, "proxy.New:", err)
 		os.Exit(2)
 	}
-	e := &env{p: p, online: online, kick: kick, pool: pool, uuidOf: uuidAt, watch: 150 * time.Millisecond}
+	e := &env{p: p, online: online, kick: kick, pool: pool, uuidOf: uuidAt, watch: 250 * time.Millisecond}
 	event.Subscribe(mgr, 0, func(ev *proxy.DisconnectEvent) {
 		pl, _ := ev.Player().(*proxy.VerifC11Player)
 		e.evMu.Lock()
